@@ -65,6 +65,27 @@ def run(rep, tier, seed, proof_broken=False):
                 if v != "valid" or o:
                     impl_vs_oracle.append(dict(case="object written by rocfl " + os.path.basename(src), rocfl=v, codes=codes, oracle=o[:3]))
                 lab.remove(name)
+            # 2b. one edit of the directory structure (or of a file's bytes) of such an object: same verdict on both sides
+            from vlib import corrupt
+            skinds = [k for k in corrupt.KINDS if k not in ("root-inv-byte", "ver-inv-byte")]
+            for src in objs:
+                for kind in skinds:
+                    for rep_i in range(2 if kind in ("stray-content", "root-sidecar-digest", "ver-sidecar-digest") else 1):
+                        name, dst = lab.place(src)
+                        desc = corrupt.apply(dst, kind, rng)
+                        if desc is None:
+                            lab.remove(name); continue
+                        v, codes = verdict(lab, name)
+                        o = oracle(dst)
+                        ov = "invalid" if o else "valid"
+                        rep.evaluations += 1
+                        rep.count("structure:%s:%s" % (kind, v))
+                        rep.classes.add("structure|%s|%s|%s" % (kind, ",".join(codes), ov))
+                        if o and o[0].startswith("ORACLE-CRASH"):
+                            rep.count("oracle-crash:" + kind)
+                        elif v != ov:
+                            impl_vs_oracle.append(dict(case="structure edit: " + desc, rocfl=v, codes=codes, oracle=o[:3]))
+                        lab.remove(name)
         finally:
             sb.close()
         # 3. generated objects x edits x spellings
